@@ -239,6 +239,16 @@ def counter(repo, chk):
             base = tg.value if isinstance(tg, ast.Subscript) else tg
             if isinstance(base, ast.Attribute) and base.attr == 'default_counter':
                 writers.add(f.qualname)
+    # callers in the package feed the counter item by item (the statement's premise): no batch_add on the per-column counters
+    nb = 0
+    for mod in repo.modules.values():
+        for f in mod.funcs.values():
+            for c in calls(f, attr='batch_add'):
+                if 'COUNTS' in ast.unparse(c.func.value) or 'counter' in ast.unparse(c.func.value).lower():
+                    nb += 1
+                    chk.bad('C15.4f', 'R6', f.site(c), ast.unparse(c)[:100], 'the bounded counter is fed a whole batch at once: batch_add tests the bound once per batch, so more than bound distinct values are tracked (and the count depends on the batch split); it must be fed item by item with add()')
+    if nb == 0:
+        chk.ok('C15.4f', 'R6', 'outrank', 'no batch_add call on the per-column bounded counters', 'the bounded counters are fed item by item')
     allowed = {f'{cls}.__init__', f'{cls}.add', f'{cls}.batch_add'}
     chk.expect(writers <= allowed and f'{cls}.add' in writers, 'C15.4d', 'R2', m.relpath, f'writers of default_counter: {sorted(writers)}', 'counter written only by __init__, add, batch_add',
                f'default_counter is written by {sorted(writers - allowed)} outside the allowed writers')
